@@ -289,6 +289,16 @@ impl SeriesFam {
         if len < self.min_len {
             return;
         }
+        // history-scaled absolute tolerance: eps-level noise relative to the largest value of the alphabet
+        // (3e-12 for the unit-scale alphabets, 1e-3 for the 2^30 level family)
+        let hmax = self.alpha.iter().flatten().fold(0.0f64, |m, v| m.max(v.abs()));
+        set_abs_tol(1e-12 * hmax);
+        self.check_word_inner(word, &x, ctx);
+        set_abs_tol(0.0);
+    }
+    fn check_word_inner(&self, word: &[u8], x: &[X], ctx: &mut Ctx) {
+        let x = x.to_vec();
+        let len = x.len();
         ctx.fam(&self.name).states += 1;
         let nontrivial = x.iter().any(|v| v.is_some());
         if nontrivial {
@@ -595,5 +605,229 @@ where
         let b: Vec<f64> = enc_vec(self.second);
         let o = catch(|| call_v2::<V, T, Vec<f64>, f64, Vec<f64>, f64>(f, v, &b, w, mp, Path::Ret).cells());
         self.out.push((name.to_string(), o));
+    }
+}
+
+// ------------------------------------------------------------------------------------------------
+// Large-scope, low-entropy families (DESIGN 3.3b): long series with a little structure, enumerated
+// completely over their few parameters, so that windows and lengths far beyond the history trees are
+// reached (w up to 300, len up to 320): thresholds that depend on the window size, narrow index
+// types, long null runs, caches that expire together.
+
+/// (label, series) of length `len`: monotone, periodic, plateau, constant, zigzag shapes, each also with
+/// null blocks and periodic null patterns
+///
+/// `bounded`: for the statistics that are compared with a tolerance. A long monotone ramp seen through a
+/// short window has a large mean / spread ratio, where the library's one-pass moment formulas lose digits
+/// legitimately (DESIGN 5.2: conditioning is outside the properties); the bounded variants keep every
+/// value within +-23 so that rounding stays orders of magnitude below the tolerance. The exactly compared
+/// statistics (extrema, arg, rank, null masks) use the unbounded shapes (long monotone runs are the worst
+/// case for the expiry of a cached extreme).
+pub fn structured_shapes(len: usize, bounded: bool) -> Vec<(String, Vec<X>)> {
+    let mut base: Vec<(String, Vec<f64>)> = if bounded {
+        vec![
+            ("ramp-up".into(), (0..len).map(|i| (i % 23) as f64 - 11.0).collect()),
+            ("ramp-down".into(), (0..len).map(|i| 11.0 - (i % 23) as f64).collect()),
+            ("constant".into(), vec![1.0; len]),
+            ("zigzag".into(), (0..len).map(|i| if i % 2 == 0 { (i % 7) as f64 } else { -((i % 5) as f64) - 0.5 }).collect()),
+            ("plateaus".into(), (0..len).map(|i| ((i / 4) % 6) as f64).collect()),
+        ]
+    } else {
+        vec![
+            ("ramp-up".into(), (0..len).map(|i| i as f64).collect()),
+            ("ramp-down".into(), (0..len).map(|i| (len - i) as f64).collect()),
+            ("constant".into(), vec![1.0; len]),
+            ("zigzag".into(), (0..len).map(|i| if i % 2 == 0 { (i / 2) as f64 } else { -((i / 2) as f64) - 0.5 }).collect()),
+            ("plateaus".into(), (0..len).map(|i| (i / 4) as f64).collect()),
+        ]
+    };
+    for p in [3usize, 8, 17] {
+        base.push((format!("saw({p})"), (0..len).map(|i| (i % p) as f64).collect()));
+        base.push((format!("saw-down({p})"), (0..len).map(|i| (p - i % p) as f64 * 0.5).collect()));
+    }
+    let mut out: Vec<(String, Vec<X>)> = vec![];
+    for (name, v) in &base {
+        out.push((name.clone(), v.iter().map(|x| Some(*x)).collect()));
+    }
+    // null patterns on three representative shapes
+    for (name, v) in base.iter().filter(|(n, _)| n == "ramp-up" || n == "saw(8)" || n == "zigzag") {
+        let blocks: Vec<(usize, usize)> = vec![(0, 3), (5, 9), (len.saturating_sub(4), 4), (len / 3, len / 3), (1, len.saturating_sub(2))];
+        for (a, b) in blocks {
+            let x: Vec<X> = v.iter().enumerate().map(|(i, x)| if i >= a && i < a + b { None } else { Some(*x) }).collect();
+            out.push((format!("{name}+nulls[{a}..{}]", a + b), x));
+        }
+        for q in [2usize, 3, 7] {
+            out.push((format!("{name}+null-every-{q}"), v.iter().enumerate().map(|(i, x)| if i % q == q - 1 { None } else { Some(*x) }).collect()));
+            out.push((format!("{name}+valid-every-{q}"), v.iter().enumerate().map(|(i, x)| if i % q == 0 { Some(*x) } else { None }).collect()));
+        }
+    }
+    out
+}
+
+/// (len, windows) grid of the structured families
+pub fn structured_grid(thorough: bool) -> Vec<(usize, Vec<usize>)> {
+    if thorough {
+        vec![
+            (24, vec![9, 12, 13, 16, 23, 24, 25]),
+            (40, vec![12, 15, 16, 17, 31, 32, 33, 39, 40, 41]),
+            (70, vec![16, 32, 63, 64, 65, 70, 72]),
+            (130, vec![64, 100, 127, 128, 129, 130]),
+            (300, vec![128, 200, 255, 256, 257, 299, 300, 301]),
+        ]
+    } else {
+        vec![(40, vec![12, 16, 17, 32, 33, 40, 41]), (270, vec![255, 256, 257])]
+    }
+}
+
+fn structured_mps(w: usize) -> Vec<Option<usize>> {
+    let mut v = vec![None, Some(0), Some(1), Some(w / 2 + 1), Some(w)];
+    v.dedup();
+    v
+}
+
+/// single-series structured families on the first `n_tys` instantiations of `fam`
+pub fn check_structured(fam: &SeriesFam, thorough: bool, n_tys: usize, ctx: &mut Ctx) {
+    // bounded shapes whenever a value is compared with a tolerance
+    let bounded = fam.law != Law::Mask && fam.fns.iter().any(|f| cmp_for(*f) == Cmp::Tol);
+    for (len, ws) in structured_grid(thorough) {
+        check_shapes(fam, "structured", &structured_shapes(len, bounded), &ws, n_tys, ctx);
+    }
+}
+
+/// parallel form: one work item per (length, shape)
+pub fn check_structured_par(fam: &SeriesFam, thorough: bool, n_tys: usize, threads: usize) -> Ctx {
+    let bounded = fam.law != Law::Mask && fam.fns.iter().any(|f| cmp_for(*f) == Cmp::Tol);
+    let mut items: Vec<((String, Vec<X>), Vec<usize>)> = vec![];
+    for (len, ws) in structured_grid(thorough) {
+        for sh in structured_shapes(len, bounded) {
+            items.push((sh, ws.clone()));
+        }
+    }
+    par_items(&items, threads, |(sh, ws), ctx| check_shapes(fam, "structured", std::slice::from_ref(sh), ws, n_tys, ctx))
+}
+
+/// the given (label, series) list x windows x a min_periods band x the family's entry points and types
+pub fn check_shapes(fam: &SeriesFam, suffix: &str, shapes: &[(String, Vec<X>)], ws: &[usize], n_tys: usize, ctx: &mut Ctx) {
+    let name = format!("{}/{suffix}", fam.name);
+    for (label, x) in shapes {
+        let len = x.len();
+        if fam.plain && x.iter().any(|v| v.is_none()) {
+            continue;
+        }
+        ctx.fam(&name).states += 1;
+        ctx.states += 1;
+        ctx.nontrivial(&name, hash_bytes(format!("{label}{len}").as_bytes()));
+        trace_state(|| json!({"family": name, "shape": label, "len": len}));
+        for &w in ws {
+            for mp in structured_mps(w) {
+                for &f in &fam.fns {
+                    if fam.plain && matches!(f, R1::Fdiff(_)) && mp.is_some() {
+                        continue;
+                    }
+                    if !(fam.cfg_ok)(f, len, w, mp) {
+                        continue;
+                    }
+                    let model = model_for1(f, x, w, mp, fam.plain);
+                    let entry = r1_name(f, !fam.plain);
+                    for ty in fam.tys.iter().take(n_tys) {
+                        let got = match (ty.run)(f, x, w, mp, Path::Ret) {
+                            None => continue,
+                            Some(g) => g,
+                        };
+                        ctx.eval(&name, outcome_hash(&got));
+                        ctx.transitions += 1;
+                        if let Some((pos, exp, g)) = judge(&got, &model, fam.law, cmp_for(f), ty.kind) {
+                            let p = pos.unwrap_or(0);
+                            let lo = p.saturating_sub(6);
+                            let info = CaseInfo { entry: &entry, f, plain: fam.plain, x, w, mp, pos, got: &got, model: &model, ty: &ty.name };
+                            ctx.violation(Violation {
+                                entry: entry.clone(),
+                                finding: (fam.classify)(&info),
+                                size: 200_000 + len * 10 + w,
+                                case: json!({"family": name, "shape": label, "len": len, "w": w, "mp": mp_json(mp), "ty": ty.name, "pos": pos,
+                                             "series_before_pos": json_word(&x[lo..(p + 1).min(len)])}),
+                                expected: exp,
+                                got: g,
+                            });
+                        } else {
+                            ctx.traces += 1;
+                        }
+                    }
+                }
+            }
+        }
+    }
+}
+
+/// flat stretches of values that are not exact in binary: the one-pass variance of a constant window is
+/// then rounding noise of either sign around 0. Only the null mask is claimed on these (C05): a standard
+/// deviation / variance of a window that holds enough observations is defined (it is 0) and must not
+/// come out null. (Values are not judged: the size of the noise is a matter of conditioning, DESIGN 5.2.)
+pub fn nondyadic_plateaus() -> Vec<(String, Vec<X>)> {
+    let mut out: Vec<(String, Vec<X>)> = vec![];
+    let levels = [0.1, 33.3, 100.37, 104.14, 1_000_000.1, -77.7];
+    for lv in levels {
+        out.push((format!("constant({lv})"), vec![Some(lv); 48]));
+        out.push((format!("constant({lv})+null-every-5"), (0..48).map(|i| if i % 5 == 4 { None } else { Some(lv) }).collect()));
+    }
+    out.push(("plateaus(8)".into(), (0..48).map(|i| Some(levels[(i / 8) % levels.len()])).collect()));
+    out.push(("plateaus(13)".into(), (0..52).map(|i| Some(levels[(i / 13) % levels.len()])).collect()));
+    out
+}
+
+/// two-series structured families: every shape against three partners (the same shape delayed by one, a saw, a ramp with nulls)
+pub fn check_structured_pairs(fam: &PairFam, thorough: bool, ctx: &mut Ctx) {
+    let name = format!("{}/structured", fam.name);
+    // smaller grid: the regression oracles are O(len * w) per call and there are 13 statistics
+    let grid: Vec<(usize, Vec<usize>)> = if thorough {
+        vec![(40, vec![12, 16, 17, 32, 33, 40, 41]), (130, vec![64, 127, 128, 129]), (270, vec![255, 256, 257])]
+    } else {
+        vec![(40, vec![16, 17, 33, 40, 41]), (260, vec![256, 257])]
+    };
+    for (len, ws) in grid {
+        let shapes = structured_shapes(len, fam.law != Law::Mask);
+        let saw: Vec<X> = (0..len).map(|i| Some(((i * 7) % 5) as f64 - 1.0)).collect();
+        let gappy: Vec<X> = (0..len).map(|i| if i % 5 == 3 || (i > 9 && i < 20) { None } else { Some((i % 11) as f64) }).collect();
+        for (label, a) in &shapes {
+            let mut delayed: Vec<X> = a.clone();
+            delayed.rotate_right(1);
+            for (plabel, b) in [("delayed", &delayed), ("saw", &saw), ("gappy", &gappy)] {
+                ctx.fam(&name).states += 1;
+                ctx.states += 1;
+                ctx.nontrivial(&name, hash_bytes(format!("{label}{plabel}{len}").as_bytes()));
+                trace_state(|| json!({"family": name, "shape": label, "partner": plabel, "len": len}));
+                for &w in &ws {
+                    for mp in structured_mps(w) {
+                        for &f in &fam.fns {
+                            let model = model_for2(f, a, b, w, mp);
+                            let entry = r2_name(f);
+                            let ty = &fam.tys[0];
+                            let got = match (ty.run)(f, a, b, w, mp, Path::Ret) {
+                                None => continue,
+                                Some(g) => g,
+                            };
+                            ctx.eval(&name, outcome_hash(&got));
+                            ctx.transitions += 1;
+                            if let Some((pos, exp, g)) = judge(&got, &model, fam.law, Cmp::Tol, ty.kind) {
+                                let p = pos.unwrap_or(0);
+                                let lo = p.saturating_sub(6);
+                                let info = PairInfo { entry: &entry, f, a, b, w, mp, pos, got: &got, model: &model, ty: &ty.name };
+                                ctx.violation(Violation {
+                                    entry: entry.clone(),
+                                    finding: (fam.classify)(&info),
+                                    size: 200_000 + len * 10 + w,
+                                    case: json!({"family": name, "shape": label, "partner": plabel, "len": len, "w": w, "mp": mp_json(mp), "pos": pos,
+                                                 "first_before_pos": json_word(&a[lo..(p + 1).min(len)]), "second_before_pos": json_word(&b[lo..(p + 1).min(len)])}),
+                                    expected: exp,
+                                    got: g,
+                                });
+                            } else {
+                                ctx.traces += 1;
+                            }
+                        }
+                    }
+                }
+            }
+        }
     }
 }
